@@ -79,6 +79,7 @@ def step (s : St) : List String → St × String
       | .notFound => "sel none"
       | .panic => "panic"
     ({ s with m := m }, out)
+  | ["conc", _, _, _] => (s, "conc done")   -- concurrent stress on a separate fresh stack (Go-side oracle only)
   | ["lb.new"] => ({ s with lb := {} }, "ok " ++ showLB {})
   | ["lb.add", u] =>
     match u.toNat? with
